@@ -255,7 +255,14 @@ class Result:
         replay_obj.setdefault("property", self.prop)
         replay_obj["what"] = what
         json.dump(replay_obj, open(path, "w"), indent=1)
-        self.violations.append({"what": what, "replay": path, "no_input": no_input})
+        # one line of explanation travels with the VIOLATION line (the replay file may not be at hand where the output is read)
+        why = what
+        for k in ("failing_clause", "panic", "correspondence"):
+            if replay_obj.get(k):
+                why += " | %s: %s" % (k, str(replay_obj[k]).replace("\n", " ")[:300])
+        if replay_obj.get("broken"):
+            why += " | " + "; ".join(replay_obj["broken"])[:300]
+        self.violations.append({"what": what, "replay": path, "no_input": no_input, "why": why})
 
     def finish(self, level="proof"):
         os.makedirs(EVID, exist_ok=True)
@@ -274,6 +281,7 @@ class Result:
         for v in self.violations:
             tail = " no-failing-input-found" if v["no_input"] else ""
             print("VIOLATION property=%s replay=%s%s" % (self.prop, v["replay"], tail))
+            print("  (reason: %s)" % v.get("why", v["what"]))
         sys.stdout.flush()
         return 1 if self.violations else 0
 
